@@ -42,16 +42,95 @@ def waiters(prog, ty, notifier):
     return out
 
 
+def counter_comparisons(prog, bi, cells, pairs, out=None, cid=None):
+    """{comparison local: (counter, relations (counter ? limit) that make the comparison true, block, wrong_limit)} for every
+    `counter <op> limit` comparison of a flow-control counter with a limit in this body"""
+    ALL = frozenset({"<", "=", ">"})
+    b = bi.body
+    cmps = {}        # comparison local -> (counter, relations (counter ? limit) when the comparison is true, block)
+    for blk in b.blocks:
+        if blk.cleanup:
+            continue
+        for i, s in enumerate(blk.stmts):
+            if s.k != "assign" or s.rv.k != "bin" or s.rv.j["op"] not in REL or not s.lhs.is_local():
+                continue
+            sides = []
+            for op in s.rv.ops:
+                o = prog.receiver_origin(bi, op)
+                role = None
+                cs = set(o.cells())
+                if o.kind == "call":
+                    t = bi.call_at(o.data)
+                    if t.callee.path.endswith("::load"):
+                        cs |= set(prog.receiver_origin(bi, t.args[0]).cells())
+                        oo = bi.trace(t.args[1]) if len(t.args) > 1 else None
+                        if oo is not None and oo.kind == "agg" and bi.agg_at(oo.data).j.get("variant") == "Relaxed":
+                            out is not None and out.undecided("%s:ordering" % prog.short(cid), bi.loc(o.data), "Relaxed load of a counter (visibility relies on Notify's own synchronisation)")
+                if o.kind == "local":
+                    for (db, di) in bi.defs.get(o.data, []):
+                        if di >= 0:
+                            for op2 in bi.stmt(db, di).rv.ops:
+                                if op2.place is not None:
+                                    cs |= set(prog.receiver_origin(bi, op2.place).cells())
+                for name, cell in cells.items():
+                    if cell in cs:
+                        role = name
+                sides.append(role)
+            if None in sides or len(sides) != 2:
+                continue
+            counter = [x for x in sides if x in pairs]
+            limit = [x for x in sides if x in pairs.values()]
+            if len(counter) != 1 or len(limit) != 1:
+                continue
+            if pairs[counter[0]] != limit[0]:
+                out is not None and out.violation("%s:%s" % (prog.short(cid), counter[0]), bi.loc(blk.idx), "%s is compared with %s: each counter must be checked against its own limit" % (counter[0], limit[0]))
+                cmps[s.lhs.local] = (counter[0], ALL, blk.idx, True)
+                continue
+            rel_true = REL[s.rv.j["op"]] if sides[0] == counter[0] else {FLIP[r] for r in REL[s.rv.j["op"]]}
+            cmps[s.lhs.local] = (counter[0], frozenset(rel_true), blk.idx, False)
+    return cmps
+
+
+def positive_regions(prog, bi, cells, pairs):
+    """blocks only reachable after BOTH counters were found below their limits by comparisons written in this body (an
+    availability check that was spliced in, or is spelled out)"""
+    from mapstate import _bool_switches
+    cmps = counter_comparisons(prog, bi, cells, pairs)
+    ALL = {"<", "=", ">"}
+    per_counter = {c: [] for c in pairs}
+    for cl, (counter, rt, cbb, wrong) in cmps.items():
+        if wrong:
+            continue
+        for sw, tr, fa in _bool_switches(bi, cl):
+            if set(rt) == {"<"} and tr is not None:
+                per_counter[counter].append(bi.cfg.edge_dominated(sw, tr))
+            elif (ALL - set(rt)) == {"<"} and fa is not None:
+                per_counter[counter].append(bi.cfg.edge_dominated(sw, fa))
+    out = set()
+    cs = list(pairs)
+    for ra in per_counter[cs[0]]:
+        for rb in per_counter[cs[1]]:
+            out |= (ra & rb)
+    sites = sorted({cbb for (counter, rt, cbb, wrong) in cmps.values()})
+    return out, sites
+
+
+PAIRS = {"outstanding_messages": "max_outstanding_messages", "outstanding_bytes": "max_outstanding_bytes"}
+
+
 @rule("C19", "R19.1", "each wait iteration registers for notification, then checks, then awaits", floor=1)
 def r19_1(prog, out):
     ty, cells = fc(prog)
     checks = set(availability_checks(prog, ty))
     ws = waiters(prog, ty, cells["notifier"])
-    if not ws or not checks:
-        raise CheckBroken("flow-control waiter or availability check not found")
+    if not ws:
+        raise CheckBroken("flow-control waiter not found")
     for bid, awaits in ws:
         bi = prog.info(bid)
         check_calls = [bb for bb, t in bi.calls(lambda c: prog.qual(bi.body, c.target) in checks)]
+        # .. or the comparisons of the counters with their limits written (spliced) into the waiter itself
+        _pos, inline_sites = positive_regions(prog, bi, cells, PAIRS)
+        check_calls = check_calls + inline_sites
         for n, a in enumerate(awaits):
             key = "%s:wait#%d" % (prog.short(bid), n)
             reg = a.origin.data
@@ -75,6 +154,7 @@ def r19_2(prog, out):
     for bid, awaits in waiters(prog, ty, cells["notifier"]):
         bi = prog.info(bid)
         pos = R.call_result_arm_blocks(bi, lambda bb, t: prog.qual(bi.body, t.callee.target) in checks, True)
+        pos = set(pos) | positive_regions(prog, bi, cells, PAIRS)[0]
         key = "%s:return-after-check" % prog.short(bid)
         esc = bi.cfg.escapes(0, pos, after=False)
         if esc is None:
@@ -138,47 +218,7 @@ def r19_4(prog, out):
     for cid in availability_checks(prog, ty):
         bi = prog.info(cid)
         b = bi.body
-        cmps = {}        # comparison local -> (counter, relations (counter ? limit) when the comparison is true, block)
-        for blk in b.blocks:
-            if blk.cleanup:
-                continue
-            for i, s in enumerate(blk.stmts):
-                if s.k != "assign" or s.rv.k != "bin" or s.rv.j["op"] not in REL or not s.lhs.is_local():
-                    continue
-                sides = []
-                for op in s.rv.ops:
-                    o = prog.receiver_origin(bi, op)
-                    role = None
-                    cs = set(o.cells())
-                    if o.kind == "call":
-                        t = bi.call_at(o.data)
-                        if t.callee.path.endswith("::load"):
-                            cs |= set(prog.receiver_origin(bi, t.args[0]).cells())
-                            oo = bi.trace(t.args[1]) if len(t.args) > 1 else None
-                            if oo is not None and oo.kind == "agg" and bi.agg_at(oo.data).j.get("variant") == "Relaxed":
-                                out.undecided("%s:ordering" % prog.short(cid), bi.loc(o.data), "Relaxed load of a counter (visibility relies on Notify's own synchronisation)")
-                    if o.kind == "local":
-                        for (db, di) in bi.defs.get(o.data, []):
-                            if di >= 0:
-                                for op2 in bi.stmt(db, di).rv.ops:
-                                    if op2.place is not None:
-                                        cs |= set(prog.receiver_origin(bi, op2.place).cells())
-                    for name, cell in cells.items():
-                        if cell in cs:
-                            role = name
-                    sides.append(role)
-                if None in sides or len(sides) != 2:
-                    continue
-                counter = [x for x in sides if x in pairs]
-                limit = [x for x in sides if x in pairs.values()]
-                if len(counter) != 1 or len(limit) != 1:
-                    continue
-                if pairs[counter[0]] != limit[0]:
-                    out.violation("%s:%s" % (prog.short(cid), counter[0]), bi.loc(blk.idx), "%s is compared with %s: each counter must be checked against its own limit" % (counter[0], limit[0]))
-                    cmps[s.lhs.local] = (counter[0], ALL, blk.idx, True)
-                    continue
-                rel_true = REL[s.rv.j["op"]] if sides[0] == counter[0] else {FLIP[r] for r in REL[s.rv.j["op"]]}
-                cmps[s.lhs.local] = (counter[0], frozenset(rel_true), blk.idx, False)
+        cmps = counter_comparisons(prog, bi, cells, pairs, out, cid)
         # switches deciding on a comparison, and bool locals that are (negated) copies of one
         decide = {}
         alias = {}       # local -> (comparison local, negated)
